@@ -619,6 +619,7 @@ def check_c(ck, repo):
         ps = [p for p in paths(fit) if p.ret != RAISE]
         XT, YT = f"self.transformer_.transform({X}, {y})[0]", f"self.transformer_.transform({X}, {y})[1]"
         ok_t = ok_f = ok_o = ok_w = bool(ps)
+        star_unknown = False
         for p in ps:
             st = {k: _t(v) for k, v in p.stores.items()}
             ok_t = ok_t and st.get("self.transformer_") == f"_common_get_transform(self.transformer, {is_reg})"
@@ -632,11 +633,23 @@ def check_c(ck, repo):
             given = (f"{sw} is None", False) in p.conds or truth_of(p.conds, f"{sw} is None") is not True
             kw = {k.arg: _t(k.value) for k in fits[0].keywords} if fits else {}
             pos_sw = _t(fits[0].args[2]) if fits and len(fits[0].args) > 2 else None
+            star = [_t(k.value) for k in fits[0].keywords if k.arg is None] if fits else []
+            if star and "sample_weight" not in kw and pos_sw is None:
+                # the weights travel in a mapping: `{} if sample_weight is None else {"sample_weight": sample_weight}`
+                forms = {ctext(f"{{}} if {sw} is None else {{'sample_weight': {sw}}}"), ctext(f"{{'sample_weight': {sw}}} if {sw} is not None else {{}}"), ctext(f"{{'sample_weight': {sw}}}")}
+                if any(ctext(t_) in forms for t_ in star):
+                    continue
+                if (f"{sw} is None", False) not in p.conds:
+                    star_unknown = True
+                    continue
             ok_w = ok_w and ((kw.get("sample_weight") == sw or pos_sw == sw) if given else (kw.get("sample_weight") in (None, sw) and pos_sw in (None, sw)))
         ck.verdict(ok_t, "C13.c", fit, "self.transformer_ = _common_get_transform(self.transformer, ..)", "a fresh transformer is derived from the hyper-parameter", "transformer_ is not derived from the hyper-parameter through _common_get_transform")
         ck.verdict(ok_o, "C13.c", fit, "transformer_.fit(X, y); transformer_.transform(X, y)", "targets are transformed by the fitted transformer", "the training targets are not the output of the fitted transformer")
         ck.verdict(ok_f, "C13.c", fit, f"self.{inner}.fit(X_trans, y_trans, ...)", "the inner model is trained on the TRANSFORMED target", "the inner model is not trained on (X_trans, y_trans): it learns the original target and predictions are inverse-transformed nevertheless")
-        ck.verdict(ok_w, "C13.c", fit, "sample_weight forwarded", "weights reach the inner model", "sample weights are not forwarded")
+        if ok_w and star_unknown:
+            ck.unknown("C13.c", fit, "sample_weight forwarded", "the keyword arguments of the inner fit travel in a mapping this rule does not open: whether the weights are in it is not decided")
+        else:
+            ck.verdict(ok_w, "C13.c", fit, "sample_weight forwarded", "weights reach the inner model", "sample weights are not forwarded")
         # read side
         if cname.endswith("Regressor2"):
             targets = [(ci.methods["predict"], {}, "self.regressor_.predict(XT)")]
